@@ -187,7 +187,7 @@ def corrupt(rng, spec, doc, t):
 def explore(ctx):
     yaml, yatiml = L.setup()
     rng = ctx.rng
-    cases = []
+    cases = LC.CaseBuffer(ctx)
     # weak claim on arbitrary models: at least one position, all inside the document
     for c in LC.gen_cases(ctx, ctx.budget(300, 6000), mutate_p=0.7, prop='C17'):
         cases.append(c)
